@@ -116,13 +116,29 @@ def near_misses(rng):
     b2 = b"AIVDM,1,1,,A,1"
     out.append(b"!" + b2 + b"*" + (b"%02X" % ais.xor_all(b2)) + b",0*" + (b"%02X" % ais.xor_all(b2)))
     out.append(b"!AIVDM,1,1,,A,1*FF,0*0B")
+    out += numeric_extremes(rng, p, f)
+    return out
+
+
+def numeric_extremes(rng, p=None, f=0):
+    """Every numeric field with digit strings around and far beyond u8/u16/u32/u64/u128."""
+    if p is None:
+        p, f = gen.valid_message_payload(rng, 1)
+    S = ais.sentence
+    vals = [b"255", b"256", b"999", b"65535", b"65536", b"4294967295", b"4294967296", b"9999999999",
+            b"18446744073709551615", b"18446744073709551616", b"9" * 39, b"9" * 40, b"0" * 40 + b"1",
+            b"0" * 12 + b"255", b"0" * 12 + b"256"]
+    out = []
+    for v in vals:
+        out += [S(p, fill=f, nf_txt=v), S(p, fill=f, fn_txt=v), S(p, fill=f, mid_txt=v), S(p, fill_txt=v, fill=0),
+                S(p, fill=f, nf_txt=v, fn_txt=v)]
     return out
 
 
 # ---------------------------------------------------------------------------------------------
 
 class SentProp:
-    cfgs_quick = ["std"]
+    pass
 
     def judge(self, rep, cfg, label, ops, impl, model):
         raise NotImplementedError
@@ -166,6 +182,17 @@ class C08(SentProp):
             n = rng.choice([0, 1, 2, 5, 10, 30, 80])
             ops += ["N 0", L(rand_bytes(rng, n), dec=0)]
         yield ("random-bytes", ops)
+        # bytes after the checksum are ignored and a tag block may be long: lines far longer than any buffer
+        ops = []
+        for _ in range(12 if tier == "quick" else 120):
+            p, f = gen.valid_message_payload(rng, rng.choice([1, 5, 18]))
+            n = rng.choice([300, 336, 337, 383, 384, 385, 400, 1000, 5000])
+            tail = rng.choice([b",", b" ", b"\r\n", b"x"]) + rand_bytes(rng, n, exclude=b"")
+            ops += ["N 0", L(ais.sentence(p, fill=f, tail=tail), dec=0)]
+            ops += ["N 0", L(ais.sentence(p, fill=f, tagblock=rand_bytes(rng, n, exclude=b"\\")), dec=0)]
+            big = gen.random_alphabet(rng, rng.choice([383, 384, 385, 600]))
+            ops += ["N 0", L(ais.sentence(big, fill=0), dec=0)]
+        yield ("long-lines", ops)
 
     def judge(self, rep, cfg, label, ops, impl, model):
         for op, a, m in zip(ops, impl, model):
@@ -354,8 +381,39 @@ class C07(SentProp):
             line = ais.sentence(p, fill=f, nf=2, fn=1, mid=v)
             ops += ["N 0", "N 1", L(line, 0, 0), L(line, 1, 1)]
         yield ("bytes", ops)
+        # completed groups: the payload is the concatenation of the accepted fragments' payloads, nothing else
+        # (duplicates, strays and abandoned groups in between)
+        from .props_hist import C06 as H6
+        h6 = H6()
+        for i, (lab, hops) in enumerate(h6.cases("quick", rng)):
+            if lab == "random":
+                yield ("groups", hops)
+
+    def judge_groups(self, rep, cfg, ops, impl, model):
+        from .props_hist import SpecGroup
+        spec = SpecGroup(384 if cfg == "noalloc" else None)
+        for op, a, m in zip(ops, impl, model):
+            if not op.startswith("L "):
+                continue
+            rep.evaluations += 1
+            ref = ref_sentence(op_line(op), cfg == "noalloc")
+            want = spec.feed(ref[1]) if ref[0] == "ok" else ("R",)
+            pa = parse_answer(a)
+            if pa["cls"] == "C" and want[0] == "C" and pa["sent"]["data"] != want[1].hex():
+                rep.violation("C07: a completed group's payload is not the concatenation of its fragments' payloads",
+                              {"cfg": cfg, "ops": ops[:ops.index(op) + 1], "impl": a})
+                return
+            if pa["cls"] == "C" and want[0] != "C" and pa["sent"]["nf"] != "1":
+                rep.violation("C07: a group was delivered that the accepted fragments do not make up",
+                              {"cfg": cfg, "ops": ops[:ops.index(op) + 1], "impl": a})
+                return
+            if pa["cls"] == "C":
+                rep.nontrivial.add(op)
 
     def judge(self, rep, cfg, label, ops, impl, model):
+        if label == "groups":
+            rep.count(label)
+            return self.judge_groups(rep, cfg, ops, impl, model)
         prev = None
         for op, a, m in zip(ops, impl, model):
             if not op.startswith("L "):
